@@ -43,7 +43,12 @@ func runC02HTTP(c *Ctx, in M) (out interface{}) {
 		b.WriteString(`[{"id":"@context","namespaces":{}}`)
 		for _, t := range rq.([]interface{}) {
 			tt := t.([]interface{})
-			fmt.Fprintf(&b, `,{"id":"http://c02/e%d","deleted":%v,"props":{"http://c02/p":%d},"refs":{}}`, int(tt[0].(float64)), tt[2].(bool), int(tt[1].(float64)))
+			nested := ""
+			if getb(in, "nested") {
+				// a property whose value is an entity (the parser builds a nested *Entity): content follows the version's content
+				nested = fmt.Sprintf(`,"http://c02/n":{"id":"http://c02/sub%d","props":{"http://c02/q":"v%d"},"refs":{}}`, int(tt[1].(float64))%3, int(tt[1].(float64)))
+			}
+			fmt.Fprintf(&b, `,{"id":"http://c02/e%d","deleted":%v,"props":{"http://c02/p":%d%s},"refs":{}}`, int(tt[0].(float64)), tt[2].(bool), int(tt[1].(float64)), nested)
 		}
 		b.WriteString("]")
 		rec := httptest.NewRecorder()
@@ -138,7 +143,7 @@ func genC02HTTP(c *Ctx) {
 			}
 			reqs = append(reqs, rq)
 		}
-		c.Do("c02.http", M{"reqs": reqs, "limit": []int{0, 1, 3, 7, 100}[c.Rng.Intn(5)]})
+		c.Do("c02.http", M{"reqs": reqs, "limit": []int{0, 1, 3, 7, 100}[c.Rng.Intn(5)], "nested": c.Rng.Intn(2) == 0})
 	}
 }
 
